@@ -74,3 +74,22 @@ fn c10_frame_interval_bounds_writes_no_hidden_state() {
     let (lo, _hi) = interval_bounds(c, mean, sem, dof);
     kani::cover!(lo.is_finite());
 }
+
+// ---- C01 / C10: interval_bounds takes its critical value from t_value below the population limit and from z_value from it
+// on, AT THE CONFIDENCE IT WAS GIVEN, and returns (mean - crit * sem, mean + crit * sem).  The two statrs entry points are
+// replaced by deterministic functions of their arguments, so "which function, which confidence, which dof" is observable.
+// (the fully symbolic version -- all f64 levels, means, standard errors, dof -- does not finish in CBMC: it has to equate two
+// copies of a float multiplication; the Verus contract of interval_bounds is the unbounded statement, this grid is its IEEE twin)
+// BOUNDED: levels {0.2, 0.9}, dof {7, 250000}, mean 10, sem 2
+#[kani::proof]
+#[kani::stub(crate::stats::t_value, det_t_value)]
+#[kani::stub(crate::stats::z_value, det_z_value)]
+fn c10_interval_bounds_uses_the_critical_value_grid() {
+    let l = if kani::any() { 0.2 } else { 0.9 };
+    let c = match kani::any::<u8>() % 3 { 0 => Confidence::TwoSided(l), 1 => Confidence::UpperOneSided(l), _ => Confidence::LowerOneSided(l) };
+    let dof = if kani::any() { 7.0 } else { 250_000.0 };
+    let (lo, hi) = interval_bounds(c, 10.0, 2.0, dof);
+    let crit = if dof < 100_000.0 { det_t_value(c, dof) } else { det_z_value(c) };
+    assert!(lo == 10.0 - crit * 2.0 && hi == 10.0 + crit * 2.0, "bounds are not mean -/+ crit * sem for the given confidence");
+    kani::cover!(dof > 100_000.0 && !c.is_two_sided());
+}
